@@ -137,7 +137,7 @@ def run_config(chk, wd, binp, name, thorough, kinds_filter=None, devmap=None, vs
         jobs.append(dict(what=what, args=["-adaptor", ad], tag="%s-%s-%s" % (kind, keymap, kind2), share=share,
                          meta={"module": "Obj", "config": name, "kind": kind, "keymap": keymap, "kind2": kind2}))
     with phase(chk, "replay-" + name):
-        results = rp.run_jobs(binp, g, gwd, jobs, walks=200 if thorough else 10, walklen=60, timeout=1500)
+        results = rp.run_jobs(binp, g, gwd, jobs, walks=200 if thorough else 10, walklen=60, timeout=3600 if thorough else 1500)
     tot = {"edges": 0}
     for job, (reps, crashes) in zip(jobs, results):
         tot, nodes = rp.fold(chk, reps, crashes, job["what"], devmap or {}, job["meta"])
